@@ -47,6 +47,27 @@ Theorem C09_publishers_exclusive :
 Proof. intros evs t u p s. apply (l_dist _ (linv_reachable evs)). Qed.
 Print Assumptions C09_publishers_exclusive.
 
+(* gap-free delivery (Chan/LogGapFree.v): with every subscriber consumed by one thread (its listener task), any number of publishers,
+   subscribers and late subscriptions, every interleaving - the positions subscriber i has yielded so far are exactly the n consecutive
+   positions sfrom, sfrom+1, ... from the first one it is entitled to: nothing skipped, nothing repeated, in order.  With
+   C09_one_total_order (the value at a position is the log's, the same for every listener) this is 'the entire history, each event
+   exactly once, in one total order'. *)
+From RM Require Import LogGapFree.
+Theorem C09_gap_free_delivery :
+  forall own evs i, Forall (wf_lev own) evs ->
+    let s := fold_left lexec evs linit in
+    sk (subs s i) <> SNone -> exists n, gots i (llog s) = zseq (sfrom (subs s i)) n.
+Proof. exact gap_free. Qed.
+Print Assumptions C09_gap_free_delivery.
+
+(* non-vacuity of the hypothesis and of the conclusion: two publishers, a joined subscriber consumed by thread 2: it yields positions 0, 1, 2 *)
+Example C09_gap_free_nonvacuous :
+  let evs := [LStart 2 (LSubJoined 0); LStep 2; LStart 0 (LPub 7)] ++ repeat (LStep 0) 3 ++ [LStart 1 (LPub 8)] ++ repeat (LStep 1) 3 ++
+             [LStart 0 (LPub 9)] ++ repeat (LStep 0) 3 ++
+             [LStart 2 (LCons 0)] ++ repeat (LStep 2) 3 ++ [LStart 2 (LCons 0)] ++ repeat (LStep 2) 3 ++ [LStart 2 (LCons 0)] ++ repeat (LStep 2) 3 in
+  Forall (wf_lev (fun _ => 2%nat)) evs /\ gots 0 (llog (fold_left lexec evs linit)) = [0; 1; 2] /\ gots 0 (llog (fold_left lexec evs linit)) = zseq 0 3.
+Proof. split; [cbn [app repeat]; repeat (apply Forall_cons; [cbn; auto|]); apply Forall_nil|vm_compute; split; reflexivity]. Qed.
+
 (* non-vacuity: a subscription made while a publisher holds an unpublished position; old stream gets [0,k), new one [k,..) *)
 Example C09_nonvacuous :
   let progs := [[LPub 10; LPub 11]; [LPub 20]; [LSubSplit 0 1; LCons 0; LCons 0; LCons 1; LCons 1; LCons 1]] in
